@@ -61,7 +61,7 @@ BOUNDS = {
                 'weights; dtypes int32,float32; Fortran-ordered images; fill -inf and -2.5 (float data)',
 }
 ASSUMPTIONS = ['numpy ndarray.tolist()/tobytes() and Quantity.to_value are trusted to read results back',
-               'weights are float64 arrays (what every regions to_mask mode produces)',
+               'weights are float64 arrays (what the simple shapes produce), int64 0/1 arrays (what compound regions produce), bool and float32 arrays',
                'image pixel values are finite; box/image extents are bounded by the stated shapes',
                'a product data*weight may differ from the exact rational product by 2^-50 relative '
                '(exact for the dyadic weight patterns)']
@@ -73,7 +73,7 @@ UNIT = 'Jy'
 _Q = dict(
     boxes=[(1, 1), (2, 3), (3, 2), (8, 8), (0, 2), (2, 0)],
     images=[(5, 6), (1, 1), (3, 4), (6, 2)],
-    weights=['ones', 'checker', 'antichecker', 'frac', 'tiny', 'frac_list', 'wide'],
+    weights=['ones', 'checker', 'antichecker', 'frac', 'tiny', 'frac_list', 'wide', 'checker@i8', 'ones@bool', 'frac@f4', 'frac@moved'],
     dtypes=['int64', 'float64', 'quantity', 'uint16'],
     layouts=['C', 'view'],
     fills=['0', '7', 'nan', 'inf'],
@@ -100,9 +100,12 @@ FILLS = {'0': 0.0, '7': 7.0, 'nan': math.nan, 'inf': math.inf, '-inf': -math.inf
 _INT_DTYPES = ('int64', 'int32', 'uint16')
 
 
-def _fill_applicable(dt, fname):
+def _fill_applicable(dt, fname, wkind='f'):
     # -2.5 is not representable in an integer image and mask.py documents float promotion only for
     # non-finite fills; the statement does not say what a truncated fill should be -> not generated.
+    # Integer image x integer (or boolean) weights is an integer cutout: it has no place for a non-finite fill either.
+    if dt in _INT_DTYPES and wkind in 'iub' and fname in ('nan', 'inf', '-inf'):
+        return False
     return not (fname == '-2.5' and dt in _INT_DTYPES)
 
 
@@ -308,12 +311,29 @@ class Ctx:
         self.wname = wname
         g = geo
         # '<pattern>_list': the same weights handed to RegionMask as a nested list instead of an ndarray
-        base = wname[:-5] if wname.endswith('_list') else wname
+        # '<pattern>@<dtype>': the weights stored in another dtype (compound masks hold integers); '<pattern>@moved': the
+        # mask object was first used at another position and then given this bounding box
+        wname0, *mods = wname.split('@')
+        base = wname0[:-5] if wname0.endswith('_list') else wname0
         self.W = [[_weight(base, j, i) for i in range(g.bnx)] for j in range(g.bny)]
         self.warr = np.array([[float(w) for w in row] for row in self.W], dtype=np.float64).reshape(g.bny, g.bnx)
+        for m in mods:
+            if m != 'moved':
+                self.warr = self.warr.astype({'i8': np.int64, 'u1': np.uint8, 'bool': np.bool_, 'f4': np.float32}[m])
         self.wbytes = self.warr.tobytes()
         self.bbox = RegionBoundingBox(g.ixmin, g.ixmin + g.bnx, g.iymin, g.iymin + g.bny)
-        if wname.endswith('_list') and g.bny and g.bnx:
+        if 'moved' in mods:
+            first = RegionBoundingBox(g.ixmin - 2, g.ixmin - 2 + g.bnx, g.iymin + 1, g.iymin + 1 + g.bny)
+            self.mask = RegionMask(self.warr, bbox=first)
+            img = np.arange(float(g.iny * g.inx)).reshape(g.iny, g.inx)
+            for use in (lambda: self.mask.get_overlap_slices((g.iny, g.inx)), lambda: self.mask.to_image((g.iny, g.inx)),
+                        lambda: self.mask.cutout(img), lambda: self.mask.multiply(img), lambda: self.mask.get_values(img)):
+                try:
+                    use()
+                except Exception:      # noqa: BLE001 -- only the later, checked calls count
+                    pass
+            self.mask.bbox = self.bbox
+        elif wname0.endswith('_list') and g.bny and g.bnx:
             self.mask = RegionMask(self.warr.tolist(), bbox=self.bbox)
         else:
             self.mask = RegionMask(self.warr, bbox=self.bbox)
@@ -766,7 +786,7 @@ def _run_ctx(res, ctx, S):
     for dt in S['dtypes']:
         for layout in S['layouts']:
             for fname in S['fills']:
-                if not _fill_applicable(dt, fname):
+                if not _fill_applicable(dt, fname, ctx.warr.dtype.kind):
                     continue
                 for copy in S['copies']:
                     check_cutout(res, ctx, dt, layout, fname, copy)
